@@ -114,6 +114,43 @@ def run(shard, ctx):
                 ctx.count("not_given_arguments_without_blocksize")
                 attempt(ctx, c.facade, "blocksize.%s" % name, ("MissingBlocksizeException",), lambda: getattr(s0, c.facade)(**kw), dev, wit)
         attached_without_blocksize(ctx, rng, names)
+        # application subclasses of the command classes (plain, twice derived, with a mix-in before or after the command class): the
+        # refusal is the error callers are told to catch, SCSICommand.MissingBlocksizeException, for them as well
+        from pyscsi.pyscsi.scsi_command import SCSICommand
+
+        class Audited:
+            audit_log = []
+
+            def note(self, what):
+                self.audit_log.append(what)
+
+        for name in names:
+            c = S.COMMANDS[name]
+            cls = c.load()
+            oc = c.opcode_obj(c.sets[0])
+            plain = type("App" + name, (cls,), {})
+            shapes = {"subclass": plain, "subclass_of_subclass": type("App2" + name, (plain,), {}), "mixin_first": type("Audited" + name, (Audited, cls), {}),
+                      "mixin_last": type(name + "Audited", (cls, Audited), {}), "object_first_is_refused_by_python": None}
+            for shape, k in shapes.items():
+                if k is None:
+                    continue
+                a = dict(harness.random_args(c, rng, cap=4096), blocksize=0)
+                if c.xfer == "ata":
+                    a.update({"byte_block": 1, "t_type": 1, "t_length": 2, "count": 1})
+                elif "ndob" in a:
+                    a["ndob"] = 0
+                kw = harness.call_kwargs(c, a)
+                ctx.case((name, "app-class", shape), True)
+                ctx.count("attempts")
+                ctx.count("application_subclasses_without_blocksize")
+                try:
+                    k(oc, **kw)
+                    ctx.fail("C17:blocksize.%s.not_refused.%s" % (name, shape), "an application class (%s) of %s without a block size was accepted" % (shape, name), {"cmd": name, "args": a, "class_shape": shape})
+                except SCSICommand.MissingBlocksizeException:
+                    pass
+                except Exception as e:  # noqa: BLE001
+                    ctx.fail("C17:blocksize.%s.wrong_error.%s.%s" % (name, shape, type(e).__name__), "an application class (%s) of %s without a block size raised %s.%s, which is not a SCSICommand.MissingBlocksizeException"
+                             % (shape, name, type(e).__module__, type(e).__qualname__), {"cmd": name, "args": a, "class_shape": shape}, exc=e)
         # ATA: whatever the ATA command and its FEATURES are, sectors without a sector size are refused (all 65536 pairs, both CDB sizes)
         for name in ("ATAPassThrough12", "ATAPassThrough16"):
             c = S.COMMANDS[name]
@@ -339,6 +376,55 @@ def run(shard, ctx):
                 a2, _ = DO.GEN[c.custom](rng, ("counts", 1, 1, 0))
                 ctx.case((cname, "valid", repr(a2)), False)
                 attempt(ctx, cname, "xcopy%d" % spc, (), lambda: harness.construct(c, "spc", DO.fresh(a2)), None, {"cmd": cname, "args": a2}, valid=True)
+            # names and descriptions of one table (CSCD types, segment types, peripheral device types) used for a field of another
+            # one, *after* the same text was accepted where it belongs (in an earlier request, or earlier in the same request:
+            # targets are built before segments): each field knows the entries of its own table only
+            def texts(table):
+                out = {}
+                for code, v in table.items():
+                    for t in (v.values() if isinstance(v, dict) else [v]):
+                        if isinstance(t, str) and t:
+                            out.setdefault(t, code)
+                return out
+
+            tabs = {"cscd": texts(cscd_codes), "segment": texts(seg_codes), "device_type": texts(tabl._device_type_codes)}
+
+            def put(kw, field, value, want_code=None):
+                """set the field of the first descriptor that may carry it; False when no descriptor of the wanted kind is there"""
+                lst = kw["segment_descriptor_list"] if field == "segment" else kw[lk]
+                key = "peripheral_device_type" if field == "device_type" else "descriptor_type_code"
+                for d in lst:
+                    if want_code is None or d.get(key) == want_code:
+                        d[key] = value
+                        return True
+                return False
+
+            for own, entries in tabs.items():
+                for text, code in sorted(entries.items()):
+                    for other in tabs:
+                        if other == own or text in tabs[other]:
+                            continue
+                        # 1. the text where it belongs
+                        warmed = False
+                        for _try in range(40):
+                            a1, _ = DO.GEN[c.custom](rng, ("counts", rng.choice([1, 2]), rng.choice([1, 2]), 0))
+                            if put(a1["_kwargs"], own, text, want_code=code):
+                                try:
+                                    harness.construct(c, "spc", DO.fresh(a1))
+                                    warmed = True
+                                except Exception:  # noqa: BLE001
+                                    pass
+                                break
+                        # 2. the same text in a field of another table, in a fresh request
+                        a3, _ = DO.GEN[c.custom](rng, ("counts", 1, 1, 0))
+                        if not put(a3["_kwargs"], other, text):
+                            continue
+                        klass = "xcopy%d.%s_text_as_%s" % (spc, own, other)
+                        wit = {"cmd": cname, "mutation": klass, "text": text, "accepted_before_where_it_belongs": warmed, "args": a3}
+                        ctx.case((cname, klass, text), True)
+                        ctx.add("invalid_classes", klass)
+                        ctx.count("texts_of_another_table")
+                        attempt(ctx, cname, klass, ("ValueError", "NotImplementedError") if other == "segment" else ("ValueError",), lambda: harness.construct(c, "spc", DO.fresh(a3)), None, wit)
         return
     if kind == "transportid":
         c = S.COMMANDS["PersistentReserveOut"]
